@@ -1,5 +1,6 @@
 import SecsModel.Proofs.HsmsTcpSend
 import SecsModel.Gen.HsmsGuards
+import SecsModel.Gen.BlockSend
 /-!
 # C10 — The TCP transport delivers every accepted byte exactly once and in order
 
@@ -22,6 +23,16 @@ theorem socket_options :
       [("tcp_client_connection.py", "self._socket", "socket.SOL_SOCKET", "socket.SO_KEEPALIVE"),
        ("tcp_server_connection.py", "self._server_sock", "socket.SOL_SOCKET", "socket.SO_REUSEADDR"),
        ("tcp_server_connection.py", "self._socket", "socket.SOL_SOCKET", "socket.SO_KEEPALIVE")] := by decide
+
+/-- **`send_message` says True only for what `_process_send_queue` resolved True** (generated facts of `Gen.BlockSend`, shared with C17:
+`BlockSendInfo.wait` waits on the result event *without a time-out* and returns `_result == SENT_OK`; `resolve(bool)` maps True/False to
+SENT_OK/SENT_ERROR; `Protocol.send_message` queues every block, waits for each and stops with False at the first that is not True).
+`block_resolve`, `queue_blocks` and `compose_with_framing` speak about "resolved True"; this is the link from there to the value the caller
+of `send_message` / `send_response` / `send_and_waitfor_response` sees.  A bounded wait, or a result test that lets the initial NOT_SENT
+state count as success, re-opens it. -/
+theorem send_message_truthful :
+    Gen.BlockSend.waitUnbounded = true ∧ Gen.BlockSend.waitReturnsSentOk = true ∧ Gen.BlockSend.resolveMapsBool = true
+      ∧ Gen.BlockSend.sendWaitsEveryBlock = true := by decide
 
 /-- **send all or report failure — all data, all socket behaviours.**  Whatever the socket answers (short writes of any size, `EWOULDBLOCK`,
 `select` time-outs, errors, in any order): the bytes handed to the socket are always a prefix of `data` (in order, nothing duplicated);
